@@ -137,3 +137,88 @@ func runC01Retain(c *mc.Ctx) {
 	w.Done()
 	c.Sample("batch", cases[len(cases)/3])
 }
+
+// Reused script buffers: the script-hashing constructors are called several times on ONE buffer whose
+// content is changed in place between the calls (what a wallet iterating over script templates does).
+// Each address must carry the hash of the content the buffer had at the time of its call: a hasher
+// that remembers its last input by reference compares the buffer with itself and returns the old digest.
+type c01Reuse struct {
+	Len   int      `json:"script_len"`
+	Calls []string `json:"constructors"` // p2sh | p2sh32 | legacy | hash160 | hash256, one per step
+}
+
+func c01EvalReuse(w *mc.W, cas c01Reuse) {
+	c := w.Ctx()
+	w.Eval()
+	buf := make([]byte, cas.Len)
+	for i := range buf {
+		buf[i] = byte(i*7 + 1)
+	}
+	net := netParams["mainnet"]
+	for step, kind := range cas.Calls {
+		if cas.Len > 0 {
+			buf[(step*37+cas.Len/2)%cas.Len] ^= byte(step + 1) // change one byte in place
+		}
+		var got, want []byte
+		msg, p := mc.Guard(func() {
+			switch kind {
+			case "p2sh":
+				a, err := bchutil.NewAddressScriptHash(buf, net)
+				if err == nil {
+					got = a.ScriptAddress()
+				}
+				want = hash160(buf)
+			case "p2sh32":
+				a, err := bchutil.NewAddressScriptHash32(buf, net)
+				if err == nil {
+					got = a.ScriptAddress()
+				}
+				want = hash256(buf)
+			case "legacy":
+				a, err := bchutil.NewLegacyAddressScriptHash(buf, net)
+				if err == nil {
+					got = a.ScriptAddress()
+				}
+				want = hash160(buf)
+			case "hash160":
+				got, want = bchutil.Hash160(buf), hash160(buf)
+			case "hash256":
+				got, want = bchutil.Hash256(buf), hash256(buf)
+			default:
+				panic("c01 reuse: unknown call " + kind)
+			}
+		})
+		if p {
+			c.Violate("address-constructor-panics", "reuse", cas, msg)
+			return
+		}
+		if !bytes.Equal(got, want) {
+			c.Violate("script-hash-of-a-reused-buffer-is-stale-or-wrong/"+kind, "reuse", cas, fmt.Sprintf("step %d: payload %x, hash of the buffer's current content %x", step, got, want))
+			return
+		}
+	}
+	w.Outcome("reused script buffer: every address carries the hash of the content at its call")
+}
+
+func runC01Reuse(c *mc.Ctx) {
+	kinds := []string{"p2sh", "p2sh32", "legacy", "hash160", "hash256"}
+	var cases []c01Reuse
+	for _, L := range []int{0, 1, 55, 56, 63, 64, 65, 119, 120, 127, 128, 129, 200, 600, 65536, 70000} {
+		for a := range kinds {
+			for b := range kinds {
+				cases = append(cases, c01Reuse{Len: L, Calls: []string{kinds[a], kinds[b]}})
+				for d := range kinds {
+					cases = append(cases, c01Reuse{Len: L, Calls: []string{kinds[a], kinds[b], kinds[d]}})
+				}
+			}
+		}
+	}
+	c.Space("script-hashing calls on one buffer changed in place between them: 16 lengths (incl. the SHA-256 block boundaries) x every sequence of 2..3 calls over 5 entry points", int64(len(cases)))
+	w := c.Worker()
+	for _, cs := range cases {
+		w.State()
+		c01EvalReuse(w, cs)
+	}
+	w.Done()
+	c.Sample("reuse", cases[len(cases)/2])
+}
